@@ -37,6 +37,7 @@ sympool.TABLE['t012'] = lambda v, *a: sum(map(ord, str(v))) % 3 != 0
 def gen(rnd):
     spec, ids, fields, nroots, sy = H.gen_spec(rnd, allow_disk=True, allow_columns=True)
     kinds = []
+    silent_field = []
 
     def sources(sp):
         for d in sp:
@@ -72,10 +73,21 @@ def gen(rnd):
                                               {'t': 'transform', 'fields': {f: [sy.fresh(), [f]]}, 'params': {}, 'inherit': True}]}
         spec.insert(pos, layer)
         kinds.append(e)
+    # a function with a Silent argument (its hash holds a constant in place of that argument)
+    if rnd.random() < 0.35:
+        a_, b_ = rnd.sample(fields, 2) if len(fields) >= 2 else (fields[0], fields[0])
+        pos = rnd.randint(1, max(1, len([d for d in spec if d['t'] != 'groupby'])))
+        spec.insert(pos, {'t': 'transform', 'fields': {a_: [sy.fresh(), [a_, '~' + b_]]}, 'params': {}, 'inherit': True})
+        kinds.append('silent')
+        if rnd.random() < 0.7:
+            # ... below a Filter on that field: the static hash the Filter stores and the run-time hash of the field share the constant
+            spec.insert(pos + 1, {'t': 'filter', 'pred': ['t011', [a_]]})
+            kinds.append('filter')
+            silent_field.append(a_)
     # a GroupBy anywhere but last would invalidate what follows; make sure it is last
     g = [d for d in spec if d['t'] == 'groupby']
     spec = [d for d in spec if d['t'] != 'groupby'] + g[:1]
-    return spec, ids, fields, nroots, sorted(set(kinds) | {d['t'] for d in spec})
+    return spec, ids, fields, nroots, sorted(set(kinds) | {d['t'] for d in spec}), silent_field
 
 
 def caches_of(graph):
@@ -200,7 +212,7 @@ def probe(g, key):
 
 
 def one(rnd, work, k):
-    spec, ids, fields, nroots, kinds = gen(rnd)
+    spec, ids, fields, nroots, kinds, silent_field = gen(rnd)
     roots = [os.path.join(work, f'case{k}_root{r}') for r in range(nroots)]
     rec = {'spec': spec, 'kinds': kinds, 'functions': []}
     try:
@@ -213,6 +225,13 @@ def one(rnd, work, k):
     targets = [f for f in fields] + ['ids', 'grp']
     if len(fields) >= 2:
         targets.append(tuple(rnd.sample(fields, 2)))
+    # ids together with a field: the stored static hash of a Filter / GroupBy meets the run-time hash of the same functions
+    targets.append(('ids', silent_field[0] if silent_field else rnd.choice(fields)))
+    if 'image' in fields and not any(d['t'] == 'groupby' for d in spec) and rnd.random() < 0.3:
+        import pickpool
+        layer = layer >> pickpool.Tagged()
+        rec['kinds'] = sorted(set(rec['kinds']) | {'mixin'})
+        targets += ['tag', 'other']
     for t in targets:
         fr = {'fields': t if isinstance(t, str) else list(t)}
         rec['functions'].append(fr)
